@@ -13,6 +13,31 @@ ENGINES = [
 ]
 
 CHECKS = [
+    {"id": "C11", "engine": "E5 finite-configuration abstract interpretation",
+     "technique": "enumeration of all 81 orientation matrices with concrete parameters; dihedral index-map domain for images, affine normal forms for coordinates",
+     "text": "Exhaustive over the 81 matrices x 2 directions x 4 functions: with concrete o11..o22 every branch folds, images are "
+             "elements of the dihedral index-map domain with symbolic extents and coordinates are affine normal forms, so the "
+             "round trips, the agreement of xy_to_detyz with trans_orientation and the mutual inversion of the coordinate maps "
+             "are decided exactly for every shape and every real coordinate; the other 73 matrices must raise ValueError in all "
+             "four functions; the eta/radius pair is decided on both half planes.",
+     "note": "Trusted: numpy transpose/fliplr/flipud/clip semantics; arccos(cos t) identities; the size convention stated in the property."},
+    {"id": "C15", "engine": "E3 + abstract lattice-distance domain",
+     "technique": "E3 for the image expression; abstract evaluation of the identification predicate over integer/rounding/fraction patterns; loop-shape and dispatch templates",
+     "text": "The image of the position under operation i must be R_i x + t_i for symbolic R, t, x (variance: operator on the left); "
+             "the predicate identifying two images is evaluated abstractly on all 64 patterns (each difference component an "
+             "integer, integer +- rounding error, or a genuine fraction) and must be a two-sided distance to the lattice with a "
+             "tolerance in [1e-5, 1e-2]; every image is compared with every representative and appended exactly when none "
+             "matches; by-name and by-number reach sg.sg with the caller's setting. That the count is nsymop/|stabiliser| is "
+             "the paper step from C04.",
+     "note": "Trusted: C04; numpy mod/round/abs/sum; the recognised loop shape (otherwise ANALYSIS-ERROR)."},
+    {"id": "C18", "engine": "data-flow + E3 layout inference",
+     "technique": "syntax-directed data-flow of the lattice vectors in reduce_cell; row/column layout compared with the layout a_to_cell's body reads (E3)",
+     "text": "Two clauses: (1) every candidate is an integer combination A.(i,j,k) of the input basis, the list is sorted by length, "
+             "the zero vector skipped, and the second/third pick are guarded by positive collinearity/coplanarity thresholds; "
+             "(2) the layout (rows vs columns) in which the three picked vectors reach a_to_cell equals the layout a_to_cell reads, "
+             "which is necessary for the returned metric to be that of the picked basis. Whether the default search range "
+             "contains the reduced basis of a given cell is not decided.",
+     "note": "Trusted: C01. Two known findings (rows passed where columns are read, tools and laue; pinned by a test)."},
     {"id": "C10", "engine": "E3 algebraic value numbering",
      "technique": "abstract evaluation with the tilt matrix of tools.detect_tilt; geometric identities (collinearity, coplanarity) as normal-form identities",
      "text": "det_coor and det_coor2 are shown to give the same pixel for the same ray by substitution; the pixel mapped back by "
